@@ -24,7 +24,10 @@ RULE = (
     'message, line and column as the result, parseStyle, one DOM edit that must raise and one that must '
     'succeed) must give identical results. Around every parse call the error mode, serializer object and preferences, '
     'profile list and default profiles must be as before, whether it returned or raised; a reused parser must repeat its '
-    'result. Non-trivial: the history contains a call that ended in an exception, followed by the probe; distinct by history.'
+    'result. Parse calls also take a media= argument (valid and invalid), byte input goes through parseString and parseStyle; every '
+    'exception a call ends in is KEPT by the harness until the end of the history (a caller may do that: the frames it refers to stay alive); '
+    'the battery also parses media=/title= arguments and stand-alone MediaQuery, MediaList, PropertyValue, Property, Selector and '
+    'declaration texts. Non-trivial: the history contains a call that ended in an exception, followed by the probe; distinct by history.'
 )
 ASSUMPTIONS = [
     'explicit assignments to cssutils.ser.prefs, cssutils.profile and cssutils.log.raiseExceptions count as configuration and are replayed in the baseline child',
@@ -72,6 +75,8 @@ op = st.one_of(
     st.tuples(st.just('parseStyle'), st.sampled_from(['color: red', 'a: (', 'b: c !x', 'margin: 1px 2px']), st.booleans()),
     st.tuples(st.just('bytes'), st.sampled_from(['ff', 'c3', 'fffe41', '40636861727365742022782d6e6f6e65223b61', 'e9']),
               st.sampled_from([None, 'utf-8', 'x-none', 'ascii'])),
+    st.tuples(st.just('bytes-style'), st.sampled_from(['ff', 'c3', '636f6e74656e743a2022e422', 'e9', '746f703a2030']),
+              st.sampled_from(['utf-8', 'x-none', 'ascii', 'utf-16']), st.booleans()),
     st.tuples(st.just('fetcher'), st.sampled_from(['raise', 'garbage', 'cycle']), st.booleans()),
     st.tuples(st.just('parseFile-missing'), st.booleans()),
     st.tuples(st.just('edit'), st.sampled_from(EDITS_BAD + EDITS_OK)),
@@ -99,6 +104,9 @@ class Leak(Exception):
     pass
 
 
+KEPT = []
+
+
 def guarded_parse(fn, what):
     """run one parse call; the global state must be the same afterwards, whether it returns or raises"""
     before = global_state()
@@ -109,6 +117,9 @@ def guarded_parse(fn, what):
         exc, res = e, None
     except Exception as e:  # noqa: BLE001
         exc, res = e, None
+    if exc is not None:
+        # a caller may keep the exception (and with it the frames it refers to) for as long as it likes
+        KEPT.append(exc)
     after = global_state()
     if after != before:
         names = ['error mode', 'serializer object', 'serializer preferences', 'profiles', 'default profiles']
@@ -124,7 +135,8 @@ def run_op(o, events):
     if kind == 'parse':
         _, text, comments, validate, raising = o
         p = cssutils.CSSParser(parseComments=comments, validate=validate, raiseExceptions=raising, fetcher=lambda u: (None, ''))
-        res, exc = guarded_parse(lambda: p.parseString(text).cssText, f'parseString({text!r}, raising={raising})')
+        media = [None, 'print', 'screen 3d', 'tv, (color'][len(text) % 4]
+        res, exc = guarded_parse(lambda: p.parseString(text, media=media).cssText, f'parseString({text!r}, media={media!r}, raising={raising})')
         if exc is not None:
             events.append('exc')
             if not isinstance(exc, xml.dom.DOMException) or not raising:
@@ -141,6 +153,14 @@ def run_op(o, events):
             events.append('exc')
             if not isinstance(exc, (UnicodeDecodeError, LookupError)):
                 raise Leak(f'crash:bytes:{frame_sig(exc)}|{data!r}: {exc!r}')
+    elif kind == 'bytes-style':
+        data = bytes.fromhex(o[1])
+        p = cssutils.CSSParser(raiseExceptions=o[3])
+        res, exc = guarded_parse(lambda: p.parseStyle(data, encoding=o[2]).cssText, f'parseStyle({data!r}, encoding={o[2]}, raising={o[3]})')
+        if exc is not None:
+            events.append('exc')
+            if not isinstance(exc, (UnicodeDecodeError, LookupError, xml.dom.DOMException)):
+                raise Leak(f'crash:bytes-style:{frame_sig(exc)}|{data!r}: {exc!r}')
     elif kind == 'fetcher':
         f = {'raise': fetch_raise, 'garbage': fetch_garbage, 'cycle': fetch_cycle}[o[1]]
         p = cssutils.CSSParser(fetcher=f, raiseExceptions=o[2])
@@ -272,6 +292,22 @@ def battery():
         out.append(('rejected', type(e).__name__))
     sheet.cssRules[0].style.setProperty('top', '0')
     out.append(sheet.cssText)
+    # arguments and stand-alone objects that are parsed from their own small texts
+    for label, fn in (
+        ('media=', lambda: cssutils.parseString('a { top: 0 }', media='print').media.mediaText),
+        ('title=', lambda: cssutils.parseString('@page { @top-left { content: "x" } }', media='tv, print', title='t').media.length),
+        ('MediaQuery', lambda: cssutils.stylesheets.MediaQuery('print and (color)').mediaText),
+        ('MediaList', lambda: cssutils.stylesheets.MediaList('tv, print').mediaText),
+        ('PropertyValue', lambda: cssutils.css.PropertyValue('1px rgb(1,2,3) "s"').cssText),
+        ('Property', lambda: cssutils.css.Property('margin', '0 auto', 'important').cssText),
+        ('Selector', lambda: cssutils.css.Selector('a > b:not(.c)').selectorText),
+        ('style.cssText=', lambda: cssutils.css.CSSStyleDeclaration(cssText='top: 0; left: 1px').cssText),
+        ('media=', lambda: cssutils.parseString('@page { margin: 0; @top-left { content: "x" } } b { top: 0 }', media='screen').media.mediaText),
+    ):
+        try:
+            out.append((label, fn()))
+        except Exception as e:  # noqa: BLE001
+            out.append((label, 'EXC', type(e).__name__, str(e)[:200]))
     out.append(('validate', cssutils.profile.validate('color', 'red'), cssutils.profile.validateWithProfile('opacity', '.5')))
     out.append(('mode', cssutils.log.raiseExceptions == mode))
     return out
